@@ -133,10 +133,10 @@ def run(ctx):
         if scen == "sticky":
             script = [("def", "a", e), ("next", "a", r.randint(20, 60))]
         elif scen == "helpers":
-            h = r.choice(["nextn", "all", "len"])
+            h = r.choice(["nextn", "all", "len", "for"])
             n = r.choice([0, 1, 3, 7, 50])
             # all(max) / len: mostly a bound well beyond the end, sometimes a tight one (0, 1, 2, 3: "up to max")
-            bound = n if h == "nextn" else (r.choice([0, 0, 1, 2, 3]) if h == "all" and r.random() < 0.3 else max(n, 1) * 20)
+            bound = n if h in ("nextn", "for") else (r.choice([0, 0, 1, 2, 3]) if h == "all" and r.random() < 0.3 else max(n, 1) * 20)
             script = [("def", "a", e), ("next", "a", k), (h, "a", bound),
                       ("def", "b", e), ("next", "b", k), ("next", "b", bound)]
             scen = scen + ":" + h
